@@ -609,9 +609,15 @@ pub fn run(ctx: &Ctx) {
     );
     // payload length sweep on the writer side: every str/bytes length 0..=600 followed by a one-byte / varint / float field
     {
-        let kinds = 8u64;
-        ctx.par_range("writer-length-sweep", 601 * kinds, move |i, l| {
-            let n = (i / kinds) as usize;
+        let kinds = 9u64;
+        // 0..=600, then windows around multiples of 512 / 1024 and the 2-/3-byte prefix boundary
+        let mut lens: Vec<usize> = (0..=600).collect();
+        for c in [1024usize, 1536, 2048, 4096, 8192, 16384] {
+            lens.extend(c - 8..=c + 4);
+        }
+        let lens = &lens;
+        ctx.par_range("writer-length-sweep", lens.len() as u64 * kinds, move |i, l| {
+            let n = lens[(i / kinds) as usize];
             let (s, v): (Shape, Value) = match i % kinds {
                 0 => (Shape::Tuple(vec![Shape::Str, Shape::Bool]), Value::List(vec![Value::Str("x".repeat(n)), Value::Bool(true)])),
                 1 => (Shape::Tuple(vec![Shape::ByteBuf, Shape::U8]), Value::List(vec![Value::Bytes(vec![0xA5; n]), Value::U(7)])),
@@ -629,6 +635,11 @@ pub fn run(ctx: &Ctx) {
                 6 => (
                     Shape::Tuple(vec![Shape::Str, Shape::DisplayStr]),
                     Value::List(vec![Value::Str("p".repeat(n / 3)), Value::Pieces(vec!["q".repeat(n)])]),
+                ),
+                // a Display impl that also emits empty fragments
+                7 => (
+                    Shape::Tuple(vec![Shape::DisplayStr, Shape::U8]),
+                    Value::List(vec![Value::Pieces(vec![String::new(), "r".repeat(n % 90), String::new(), String::new(), "s".repeat(n % 7), String::new()]), Value::U(3)]),
                 ),
                 _ => (
                     Shape::Seq(Box::new(Shape::Tuple(vec![Shape::Str, Shape::I8]))),
